@@ -15,8 +15,8 @@ if REPO not in sys.path:
     sys.path.insert(0, REPO)
 
 
-class Hang(Exception):
-    pass
+class Hang(BaseException):
+    """not an Exception: the code under test must not be able to swallow the watchdog"""
 
 
 @contextlib.contextmanager
@@ -25,12 +25,20 @@ def watchdog(seconds=60):
     def handler(signum, frame):
         raise Hang(f"call did not return within {seconds}s")
     old = signal.signal(signal.SIGALRM, handler)
-    signal.setitimer(signal.ITIMER_REAL, seconds)
+    # re-arm every second after the deadline: a handler whose exception was swallowed by
+    # a broad `except` in the code under test fires again
+    signal.setitimer(signal.ITIMER_REAL, seconds, 1.0)
+    if os.environ.get("VERIF_DEBUG_HANG"):
+        import faulthandler
+        faulthandler.dump_traceback_later(seconds + 10, exit=False)
     try:
         yield
     finally:
         signal.setitimer(signal.ITIMER_REAL, 0)
         signal.signal(signal.SIGALRM, old)
+        if os.environ.get("VERIF_DEBUG_HANG"):
+            import faulthandler
+            faulthandler.cancel_dump_traceback_later()
 
 
 def load_known():
